@@ -9,7 +9,7 @@ CONSTANTS Randomized,
 VARIABLE c
 Cn(parts) == <<"cn", parts>>
 T(x) == <<"ty", x>>
-SrcTypes == { T("/number"), T("/string"), T("/name"), T("/any"), <<"pre", <<"foo">>>>, <<"pre", <<"foobar">>>>, <<"pre", <<"bar">>>>,
+SrcTypes == { T("/number"), T("/string"), T("/name"), T("/any"), T("/time"), T("/duration"), <<"pre", <<"foo">>>>, <<"pre", <<"foobar">>>>, <<"pre", <<"bar">>>>,
               <<"union", <<T("/number"), T("/string")>>>>, <<"union", <<<<"pre", <<"foo">>>>, <<"pre", <<"bar">>>>>>>>, <<"tpair", T("/number"), T("/string")>>, <<"tpair", <<"pre", <<"foo">>>>, T("/number")>>,
               <<"tlist", T("/number")>>, <<"tlist", <<"pre", <<"foo">>>>>>, <<"tmap", T("/string"), T("/number")>>,
               <<"tstruct", <<<<"a", T("/number"), FALSE>>>>>>, <<"tstruct", <<<<"a", T("/number"), FALSE>>, <<"b", T("/string"), FALSE>>>>>> }
@@ -17,7 +17,7 @@ DstTypes == SrcTypes \cup { <<"pre", <<"foo", "a">>>>, <<"tpair", T("/any"), T("
                             <<"union", <<<<"pre", <<"foo">>>>, T("/number")>>>> }
 Templates == {"copy", "pair_with_string", "fst", "snd", "plus1", "join_other", "list_of", "member", "cons_self", "name_to_string", "struct_get_a", "map_of", "none",
               "neg_prefix_below", "neg_prefix_eq", "pos_prefix_below", "pos_prefix_eq", "neg_prefix_other"}
-Consts == { Num(0), Num(1), Str("a"), Str("x"), Cn(<<"foo", "a">>), Cn(<<"foo", "a", "b">>), Cn(<<"foo", "c">>), Cn(<<"foobar", "x">>), Cn(<<"bar">>), Cn(<<"bar", "b">>),
+Consts == { Num(0), Num(1), Str("a"), Str("x"), Tm(1), Du(90), Cn(<<"time", "zone">>), Cn(<<"duration", "x">>), Cn(<<"foo", "a">>), Cn(<<"foo", "a", "b">>), Cn(<<"foo", "c">>), Cn(<<"foobar", "x">>), Cn(<<"bar">>), Cn(<<"bar", "b">>),
             Pair(Num(1), Str("a")), Pair(Cn(<<"foo", "a">>), Num(1)), Pair(Str("a"), Num(1)),
             List(<<>>), List(<<Num(1), Num(0)>>), List(<<Cn(<<"foo", "a">>)>>), List(<<Str("a")>>),
             MapV(<<<<Str("k"), Num(1)>>>>), MapV(<<<<Num(1), Num(1)>>>>),
